@@ -659,8 +659,8 @@ LEVEL_TEXT = ("Machine-checked Coq theorems on Gallina models of (a) the axis pi
               "datum order at the scale position of its time (C11_counts). (b) For options None, {} or ANY subset of the documented keys "
               "whose given values have the documented kinds (extra keys allowed, latex and labella partial), the merge succeeds, no "
               "documented key is missing afterwards and every subscript succeeds (C11_options_none, C11_options_merge, "
-              "C11_options_all_keys, C11_options_total, C11_options_omitted_total, C11_options_own_scale), and composed with the whole-pipeline "
-              "model both documents are produced from the raw arguments (C11_export_total). (c) In every state the "
+              "C11_options_all_keys, C11_options_total, C11_options_omitted_total; C11_options_scale_identity: the timeline points to the caller's scale object or to the TimeScale its own constructor call created, never to another one), and composed with the whole-pipeline "
+              "model both documents are produced from the raw arguments on the pipeline's documented domain (C11_export_total). (c) In every state the "
               "solver reaches, each recursive traversal started at a variable recurses at most as deep as the number of variables "
               "of that variable's BLOCK, and a layer of k items gives at most k + 2 variables (C11_depth_le_block, "
               "C11_depth_compute_lm, C11_depth_find_path, C11_depth_directed_path, C11_depth_populate, C11_depth_le_vars, "
